@@ -82,13 +82,26 @@ def index_expr(rng, shape):
     return tuple(sel)
 
 
-def index_expr_list(rng, shape):
+def alias_list(rng, n):
+    """an integer list over an axis of length n in which NO written value occurs twice while at least one position is selected twice —
+    once as q and once as its negative alias q - n — next to further positions under either spelling, in shuffled order"""
+    pos = rng.sample(range(n), rng.randint(1, min(n, 3)))
+    both = [q for q in pos if rng.chance(.5)] or [rng.pick(pos)]
+    lst = []
+    for q in pos:
+        lst += [q, q - n] if q in both else [q if rng.chance(.5) else q - n]
+    rng.shuffle(lst)
+    return lst
+
+
+def index_expr_list(rng, shape, alias=None):
     """an index expression that certainly holds an integer-array index with aliased / repeated entries,
-    surrounded by slices / ellipsis / newaxis"""
+    surrounded by slices / ellipsis / newaxis; alias (default: half of the time): the repeats are ONLY visible modulo the axis length"""
     ax = rng.randrange(len(shape))
     n = shape[ax]
     pool = [rng.randrange(n) for _ in range(rng.randint(1, 2))]
     lst = [(q if rng.chance(.5) else q - n) for q in (rng.pick(pool) for _ in range(rng.randint(2, 4)))]
+    if rng.chance(.5) if alias is None else alias: lst = alias_list(rng, n)
     sel = []
     for k, m in enumerate(shape):
         if k == ax: sel.append(lst)
